@@ -62,6 +62,18 @@ var extMayPanic = []string{
 	"cosmos-sdk/types.(Coins).Sub", "cosmos-sdk/types.(Int).Quo", "cosmos-sdk/types.(Dec).Quo", "math/big.(*Int).Div", "math/big.(*Int).Mod", "math/big.(*Int).Quo", "math/big.(*Int).Rem",
 }
 
+var parseFns = []string{"math/big.(*Int).SetString", "strconv.ParseUint", "strconv.ParseInt", "strconv.Atoi", "cosmos-sdk/types.NewIntFromString",
+	"cosmos-sdk/types.AccAddressFromBech32", "cosmos-sdk/types.ValAddressFromBech32", "cosmos-sdk/types.NewDecFromStr", "encoding/hex.DecodeString", "client/types.ParseHeight"}
+
+func isParseFn(n string) bool {
+	for _, p := range parseFns {
+		if strings.HasSuffix(n, p) {
+			return true
+		}
+	}
+	return false
+}
+
 func isIntegerType(t types.Type) bool {
 	b, ok := t.Underlying().(*types.Basic)
 	return ok && b.Info()&types.IsInteger != 0
@@ -113,6 +125,20 @@ func panicSites(c *Check, fn *ssa.Function) []panicSite {
 				cc := v.Common()
 				if f := c.P.resolveCallee(cc); f != nil {
 					n := funcName(f)
+					// a parse whose ok / error result is discarded: the value may be nil / zero and is used unchecked
+					if call, isCall := v.(*ssa.Call); isCall && isParseFn(n) && call.Call.Signature().Results().Len() == 2 {
+						used := false
+						if refs := call.Referrers(); refs != nil {
+							for _, r := range *refs {
+								if ex, ok := r.(*ssa.Extract); ok && ex.Index == 1 && ex.Referrers() != nil && len(*ex.Referrers()) > 0 {
+									used = true
+								}
+							}
+						}
+						if !used {
+							out = append(out, panicSite{fn, "ignored-parse", x.E(call).String(), v.Pos(), v})
+						}
+					}
 					if strings.HasPrefix(f.Name(), "Must") {
 						out = append(out, panicSite{fn, "must-call", n, v.Pos(), v})
 					} else {
@@ -321,6 +347,47 @@ func c15(c *Check) {
 						c.Ok("C15/panic-source", construct, s.Pos, "local guard: divisor tested non-zero")
 						continue
 					}
+				}
+			}
+			if s.Kind == "ignored-parse" {
+				// validated-field fact, derived automatically: the stateless validator of the parameter's type performs the
+				// very same parse on the very same field and rejects when it fails
+				okAuto := false
+				for pi, prm := range f.Params {
+					pt := prm.Type()
+					if ptr, ok := pt.(*types.Pointer); ok {
+						pt = ptr.Elem()
+					}
+					nt, ok := pt.(*types.Named)
+					if !ok || nt.Obj().Pkg() == nil || !strings.HasPrefix(nt.Obj().Pkg().Path(), modPath) {
+						continue
+					}
+					tag := fmt.Sprintf("$%d.", pi)
+					if !strings.Contains(s.What, tag) {
+						continue
+					}
+					var vb *ssa.Function
+					for _, recv := range []types.Type{nt, types.NewPointer(nt)} {
+						ms := c.P.SSA.MethodSets.MethodSet(recv)
+						for k := 0; k < ms.Len(); k++ {
+							if ms.At(k).Obj().Name() == "ValidateBasic" {
+								vb = c.P.unwrap(c.P.SSA.MethodValue(ms.At(k)))
+							}
+						}
+					}
+					if vb == nil || len(vb.Blocks) == 0 {
+						continue
+					}
+					want := strings.ReplaceAll(s.What, tag, "$0.")
+					for g := range c.P.FA(vb).GuardSet() {
+						if strings.HasSuffix(g, "reject !"+want+"#1") || strings.HasSuffix(g, "reject ("+want+"#1 != nil)") {
+							okAuto = true
+						}
+					}
+				}
+				if okAuto {
+					c.Ok("C15/panic-source", construct, s.Pos, "validated-field fact: ValidateBasic performs the same parse on the same field and rejects on failure")
+					continue
 				}
 			}
 			var hit *audit
